@@ -18,7 +18,9 @@ import (
 	"testing"
 	"time"
 
+	"github.com/vulcand/oxy/v2/cbreaker"
 	"github.com/vulcand/oxy/v2/forward"
+	"github.com/vulcand/oxy/v2/trace"
 	"github.com/vulcand/oxy/v2/verifharness/sim"
 	"github.com/vulcand/oxy/v2/verifharness/vstat"
 	"pgregory.net/rapid"
@@ -72,6 +74,10 @@ type respScript struct {
 	// retarget: the state listener wraps a handler that points req.URL at the backend itself
 	// (the README pattern) instead of receiving an already re-targeted request
 	retarget bool
+	// behind: the forwarder is wrapped by another oxy middleware (response-writer wrapper in between)
+	behind string
+	// early: number of 103 Early Hints responses the backend sends before the final one
+	early int
 }
 
 var faults = []string{"refused", "close-before", "rst-before", "partial-head", "garbage-head", "invalid-status", "body-close", "body-rst", "never-answer", "client-cancel"}
@@ -82,8 +88,16 @@ func genResp(t *rapid.T) *respScript {
 	s.retarget = rapid.IntRange(0, 3).Draw(t, "retarget") == 0
 	s.status = rapid.SampledFrom([]int{200, 200, 201, 202, 204, 206, 226, 301, 304, 400, 404, 418, 451, 500, 502, 503, 504, 599, 600, 799, 999}).Draw(t, "status")
 	for i := rapid.IntRange(0, 8).Draw(t, "nh"); i > 0; i-- {
-		s.headers = append(s.headers, [2]string{rapid.SampledFrom([]string{"X-A", "X-B", "Set-Cookie", "Cache-Control", "Etag", "Content-Type", "X-Long", "Location"}).Draw(t, "hn"), rapid.StringMatching(`[a-zA-Z0-9=;,/]{1,16}`).Draw(t, "hv")})
+		v := rapid.StringMatching(`[a-zA-Z0-9=;,/]{1,16}`).Draw(t, "hv")
+		if rapid.IntRange(0, 5).Draw(t, "oddValue") == 0 { // legal field values beyond printable ASCII
+			v = rapid.SampledFrom([]string{"a\tb", "attachment; filename=\"na\u00efve-\u00e9t\u00e9.pdf\"", "caf\xe9", "x \t y", "\xff\xfe\x80", "W/\"\u2713\""}).Draw(t, "oddHv")
+		}
+		s.headers = append(s.headers, [2]string{rapid.SampledFrom([]string{"X-A", "X-B", "Set-Cookie", "Cache-Control", "Etag", "Content-Type", "X-Long", "Location"}).Draw(t, "hn"), v})
 	}
+	// the forwarder may sit behind another oxy middleware that wraps the response writer, and
+	// the backend may send informational responses before the final one
+	s.behind = rapid.SampledFrom([]string{"", "", "", "trace", "cbreaker"}).Draw(t, "behind")
+	s.early = rapid.SampledFrom([]int{0, 0, 0, 1, 2}).Draw(t, "earlyHints")
 	if s.status != 204 && s.status != 304 {
 		var n int
 		switch rapid.IntRange(0, 6).Draw(t, "sizeKind") {
@@ -133,6 +147,11 @@ func genResp(t *rapid.T) *respScript {
 // steps renders the script as backend steps.
 func (s *respScript) steps() []sim.Step {
 	var head bytes.Buffer
+	if s.fault == "" || s.fault == "body-close" || s.fault == "body-rst" {
+		for i := 0; i < s.early; i++ {
+			head.WriteString("HTTP/1.1 103 Early Hints\r\nLink: </style.css>; rel=preload\r\n\r\n")
+		}
+	}
 	fmt.Fprintf(&head, "HTTP/1.1 %d Status\r\n", s.status)
 	for _, kv := range s.headers {
 		fmt.Fprintf(&head, "%s: %s\r\n", kv[0], kv[1])
@@ -206,7 +225,7 @@ func (s *respScript) String() string {
 	if len(hs) > 300 {
 		hs = hs[:300] + fmt.Sprintf("...(%d headers)", len(s.headers))
 	}
-	return fmt.Sprintf("status=%d headers=%s body=%dB chunked=%v chunks=%d flushes=%d fault=%q cutAfter=%d defaultTransport=%v retarget=%v", s.status, hs, len(s.body), s.chunked, len(s.chunks), s.flushes, s.fault, s.cutAfter, s.defaultTransport, s.retarget)
+	return fmt.Sprintf("status=%d headers=%s body=%dB chunked=%v chunks=%d flushes=%d fault=%q cutAfter=%d defaultTransport=%v retarget=%v behind=%q early-hints=%d", s.status, hs, len(s.body), s.chunked, len(s.chunks), s.flushes, s.fault, s.cutAfter, s.defaultTransport, s.retarget, s.behind, s.early)
 }
 
 func headerValues(h [][2]string) map[string][]string {
@@ -277,6 +296,22 @@ func exchange(fatalf func(string, ...any), s *respScript, method string) {
 		}), ev.listener)
 	} else {
 		req.URL, _ = url.Parse(backendURL)
+	}
+	switch s.behind {
+	case "trace":
+		tr, err := trace.New(h, io.Discard)
+		if err != nil {
+			fatalf("trace.New: %v", err)
+			return
+		}
+		h = tr
+	case "cbreaker":
+		cb, err := cbreaker.New(h, "NetworkErrorRatio() > 2.0") // never trips
+		if err != nil {
+			fatalf("cbreaker.New: %v", err)
+			return
+		}
+		h = cb
 	}
 	rec := sim.NewRecorder()
 	done := make(chan any, 1)
@@ -495,7 +530,11 @@ func TestC16_RealServer(t *testing.T) {
 			defer conn.Close()
 			_ = conn.SetDeadline(time.Now().Add(30 * time.Second))
 			fmt.Fprintf(conn, "GET /x HTTP/1.1\r\nHost: front\r\nConnection: close\r\n\r\n")
-			resp, err := http.ReadResponse(bufio.NewReader(conn), nil)
+			br := bufio.NewReader(conn)
+			resp, err := http.ReadResponse(br, nil)
+			for err == nil && resp.StatusCode >= 100 && resp.StatusCode < 200 && resp.StatusCode != 101 {
+				resp, err = http.ReadResponse(br, nil) // informational responses precede the final one
+			}
 			if err != nil {
 				return 0, nil, nil, err
 			}
